@@ -36,11 +36,13 @@ CHECKS = {
     },
     "C15": {
         "pkg": "c15",
+        "aux_builds": [{"pkg": "./cmd/vhook", "out": "vhook"}],
         "technique": "stateful property-based testing (rapid) of the chain search against reference BFS + chain validity predicate",
         "level_text": "Random rule graphs and query sequences on the real ChainStorage; existence compared with BFS, returned chains checked for validity. Search, not proof.",
         "level_note": "Trusted: BFS reference in props/c15. 'Same version' = equal after trimming the group (one group) or equal strings (several groups, full spellings).",
         "parts": [
             {"part": "chain", "test": "TestChain", "quick": {"checks": 6000, "shards": 4}, "thorough": {"checks": 400000, "shards": 16, "timeout": 3000}},
+            {"part": "e2e", "test": "TestConversionE2E", "quick": {"checks": 240, "shards": 16, "shrinktime": "60s", "timeout": 900}, "thorough": {"checks": 6000, "shards": 16, "timeout": 6000}},
         ],
     },
     "C16": {
